@@ -12,6 +12,7 @@ plus: PatchTrees produced by the real make_patch over the catalogue rulebooks an
 """
 import itertools
 import json
+import re
 import os
 import shutil
 
@@ -22,17 +23,22 @@ from .. import annetenv as E
 
 # vendor -> (hardware models to try, vendor class of the formatter in spec/DeploySession.tla)
 VENDORS = {
-    "huawei": (["Huawei CE6870", "Huawei NE40E", "Huawei S5700"], "huawei"),
+    "huawei": (["Huawei CE6870", "Huawei NE40E", "Huawei S5700", "Huawei NE20E-S2F", "Huawei CE12800", "Huawei NE9000", "Huawei NE05E-SQ"], "huawei"),
     "h3c": (["H3C S6800"], "huawei"),
     "cisco": (["Cisco Catalyst C3750"], "cisco"),
     "nexus": (["Cisco Nexus 9336"], "exit"),
     "arista": (["Arista DCS-7368"], "exit"),
     "aruba": (["Aruba AP-505"], "exit"),
     "b4com": (["B4com CS4100", "B4com CS2148P"], "exit"),
-    "iosxr": (["Cisco ASR 9000"], "asr"),
+    "iosxr": (["Cisco ASR 9000", "Cisco ASR9006", "Cisco XRv 9000"], "asr"),
     "optixtrans": (["Huawei OptiXtrans DC908"], "common"),
     "pc": (["PC"], "common"),
 }
+
+# models that edit a candidate configuration (harness knowledge about the devices: VRP8 boxes are the CE and NE series; S-series and H3C,
+# classic IOS and NX-OS write straight into the running configuration; the old B4com CS2148P firmware has no commit either)
+# (Aruba Instant is left out: its access-point environment commands are a session of their own outside `conf t`)
+TWOSTAGE = re.compile(r"^(Huawei (CE|NE)\d|Arista |Cisco (ASR|XRv)|B4com (?!CS2148P))")
 
 SYN_DEPLOY = [
     {"pat": "interface *", "timeout": 45, "answers": ["Y"], "kids": [
@@ -92,6 +98,9 @@ def lex_patch(text, indent):
     return out
 
 
+_CALLS = [0]
+
+
 def observe(hw, vclass, pt, do_commit, do_finalize, drules, judge_params, check_model):
     from annet import deploy
     from annet.vendors import registry_connector
@@ -104,10 +113,17 @@ def observe(hw, vclass, pt, do_commit, do_finalize, drules, judge_params, check_
     cmd_paths = fmt0.cmd_paths(pt)
     paths = [[c.split() for c in p] for p in cmd_paths]
     ctxs = [[[k, v] for k, v in (c or {}).items()] for c in cmd_paths.values()]
-    cl = deploy.apply_deploy_rulebook(hw, cmd_paths, do_finalize=do_finalize, do_commit=do_commit)
+    # the public signature is apply_deploy_rulebook(hw, cmd_paths, do_finalize=True, do_commit=True), the same as the deploy drivers'
+    # method: callers may pass the two switches by position
+    _CALLS[0] += 1
+    if _CALLS[0] % 2:
+        cl = deploy.apply_deploy_rulebook(hw, cmd_paths, do_finalize, do_commit)
+    else:
+        cl = deploy.apply_deploy_rulebook(hw, cmd_paths, do_finalize=do_finalize, do_commit=do_commit)
     sent = [{"d": c.level, "row": c.cmd.split(), "timeout": int(c.timeout) if c.timeout is not None else -1,
              "answers": [q.answer for q in (c.questions or [])]} for c in cl]
     return {"v": vclass, "pt": pt_json(pt), "shown": shown, "paths": paths, "sent": sent, "docommit": do_commit, "dofinalize": do_finalize,
+            "twostage": bool(TWOSTAGE.match(hw.model)),
             "drules": drules, "ctxs": ctxs, "judgeParams": judge_params, "checkModel": check_model}
 
 
